@@ -14,7 +14,9 @@
 //	       in dotted notation, "v6"-tagged ones in colon (mapped) notation.
 //	pure6  off in {0,60,64,96,128-W}: v6-only behaviours at bit offset off of a random IPv6 address.
 //
-// Upper bits are fixed per run; bits below the abstract space are host bits (random / all 0 / all 1).
+// Upper bits are fixed per run (random, or in a third of the runs all 0 / all 1 so that the special addresses
+// 0.0.0.0, 255.255.255.255, ::, ffff:..:ffff, ::ffff:0.0.0.0 and ::ffff:255.255.255.255 are rules and queries);
+// bits below the abstract space are host bits (random / all 0 / all 1, on every leg).
 package main
 
 import (
@@ -123,6 +125,17 @@ func newEmb(kind string, o, W, L4, b4 int, rng *rand.Rand) (Emb, bool) {
 			e.b16[i] = 0xff
 		}
 		rng.Read(e.b16[12:])
+		if rng.Intn(3) == 0 {
+			// special upper bits: with the all-zero / all-one host-bit fillings the queries then hit exactly
+			// 0.0.0.0, 255.255.255.255 and the mapped boundary values ::ffff:0.0.0.0, ::ffff:255.255.255.255
+			v := byte(0)
+			if b4 != 0 {
+				v = 0xff
+			}
+			for i := 12; i < 16; i++ {
+				e.b16[i] = v
+			}
+		}
 		if o >= L4 {
 			setBits(e.b16[:], e.Off, L4, uint64(b4))
 		} else if int(getBits(e.b16[:], e.Off, L4)) != b4 {
@@ -131,7 +144,12 @@ func newEmb(kind string, o, W, L4, b4 int, rng *rand.Rand) (Emb, bool) {
 	} else {
 		e.Off = o
 		rng.Read(e.b16[:])
-		if o >= 96 {
+		if sp := rng.Intn(6); sp < 2 {
+			// special upper bits: all zero / all one, so that the fillings reach :: and ffff:...:ffff exactly
+			for i := range e.b16 {
+				e.b16[i] = byte(-sp) // 0x00 or 0xff
+			}
+		} else if o >= 96 {
 			switch rng.Intn(3) {
 			case 1: // ::a.b.c.d  (v4-compatible, NOT v4-mapped)
 				for i := 0; i < 12; i++ {
@@ -500,7 +518,7 @@ func replayBeh(idx int, b *Beh, rng *rand.Rand, env *plugEnv) {
 				}
 				r2.Events = append(r2.Events, Ev{Ev: "Sort"})
 			}
-			checkAll("reader", orFail(m, err), &e, b, txt, []int{0}, rng, r2)
+			checkAll("reader", orFail(m, err), &e, b, txt, []int{0, 1 + pi%2}, rng, r2)
 
 			// --- API 3: ip_set plugin (ips + files + sets), once per (behaviour, embedding)
 			if pi == ipsetAt {
@@ -532,7 +550,7 @@ func replayBeh(idx int, b *Beh, rng *rand.Rand, env *plugEnv) {
 					}
 					return s.GetIPMatcher(), nil
 				})
-				checkAll("ip_set", orFail(m, err), &e, b, txt, []int{0}, rng, nil)
+				checkAll("ip_set", orFail(m, err), &e, b, txt, []int{0, 1, 2}, rng, nil)
 			}
 		}
 		if run != nil {
